@@ -36,6 +36,12 @@ static void ip_family(Rng&R,std::vector<Text>&out,bool thorough){
 }
 
 // ---- shapes whose meaning is decided late by an LL(1) parser: scheme vs first segment, host vs user info, port vs user info
+// wchar_t only: a code point above 255 whose LOW BYTE (or low 16 bits) is an ASCII character is not that character - in every position
+// of every construct (scheme, user info, reg-name, IPv4, IPv6, IPvFuture version and text, port, percent escapes, path, query, fragment)
+static void wide_alias_family(std::vector<Text>&out){
+  for(const char*b:{"s1+-.:a","http://u%4a:p@h.ex%41:80/p%2f;=/q?k=v&%7e#f%3A","//[v1a.x:y]/","//[vF1.~]","//[1:2:3:4:5:6:7:8]","//[::ffff:1.2.3.4]:8","//[a:B::c]:0","//1.2.3.4:5","//255.0.10.99","a/./../b","/a//b?","?q/?#","#f/?","a%41:b","//u@","//h:","s:/.//a","s:%2E%2e/x","//[::1]"}){
+    Text t=T(b); for(size_t i=0;i<t.size();++i) for(int add:{256,0x10000,0x4100}){ Text v=t; v[i]+=add; out.push_back(v); } } }
+
 static void late_shapes(std::vector<Text>&out){
   for(int n=1;n<=5;++n) for(int m=0;m<=4;++m){
     Text a(n,'a'), d(m,'1');
@@ -115,7 +121,7 @@ VH_DRIVER(parse_log){
   Rng R(g.seed); LogState S; std::vector<int> all={0,1,2,3,4,5};
   std::vector<Text> in;
   if(mode=="comp"||mode=="c04"){
-    ip_family(R,in,g.thorough); late_shapes(in); size_t nforced=in.size();
+    ip_family(R,in,g.thorough); late_shapes(in); wide_alias_family(in); size_t nforced=in.size();
     accepting_over(A("a1:/?#.%4@+-"),g.thorough?7:5,T(""),in);
     accepting_over(A("/a1:@[].%425v"),g.thorough?6:4,T("//"),in);
     accepting_over(A("]:.01259afFg"),g.thorough?7:5,T("//["),in);
